@@ -237,6 +237,34 @@ pub fn run(tier: Tier, seed: u64) -> i32 {
         }
     }
 
+    // ---------------- many disjoint items (more than a small-set fast path would hold) ----------
+    {
+        let ctxs: Vec<MCtx> = [0i64, 1, 2, 15, 16, 17, 99, 100, 101, 150, 200, 201, 299, 300, 350, 400, 401, i64::MAX]
+            .iter()
+            .map(|i| ctx_with("i", Some(V::Int(*i))))
+            .collect();
+        let b = Bench::new(&tag, uni.clone(), ctxs);
+        for n in [7usize, 8, 9, 10, 17, 33] {
+            // n disjoint singletons, then ranges at the low end, in the middle and at the high end
+            let singles: Vec<IntItem> = (0..n).map(|k| IntItem { lo: 1 + 2 * k as i64, hi: None }).collect();
+            for extra in [vec![IntItem { lo: 100, hi: Some(200) }], vec![IntItem { lo: 300, hi: Some(400) }, IntItem { lo: 100, hi: Some(200) }], vec![IntItem { lo: -5, hi: Some(0) }, IntItem { lo: 300, hi: Some(i64::MAX) }]] {
+                for front in [false, true] {
+                    let mut items = singles.clone();
+                    if front {
+                        let mut e = extra.clone();
+                        e.extend(items);
+                        items = e;
+                    } else {
+                        items.extend(extra.clone());
+                    }
+                    let e = Expr::cmp(Lhs::field("i"), CmpOp::In, Rhs::IntSet(items));
+                    note(check_filter(&run, ID, &b, &e));
+                    run.count("many_item_lists", 1);
+                }
+            }
+        }
+    }
+
     // ---------------- long byte strings (lengths around powers of two) ----------------
     {
         let lens = [15usize, 16, 17, 31, 32, 33, 63, 64, 65, 127, 128, 129, 255, 256, 257, 1000];
